@@ -21,6 +21,10 @@ type Op struct {
 	FromLoad int `json:"from_load,omitempty"`
 	Key  string     `json:"key,omitempty"`  // register / memory key
 	AddrX *refeval.J `json:"addrx,omitempty"` // apply_mem: address expression
+	// apply_mem: the address is what the AddrFrom-th register read of the
+	// history returned (1-based), shifted right by AddrSh bits
+	AddrFrom int `json:"addr_from,omitempty"`
+	AddrSh   int `json:"addr_sh,omitempty"`
 }
 
 // InitBlock is an initial block of a Bytes memory.
@@ -34,6 +38,7 @@ type Trace struct {
 	Obj      string       `json:"obj"`                 // sparse | bytes | overlay | regs
 	BaseKind string       `json:"base_kind,omitempty"` // overlay: bytes | sparse
 	Init     []InitBlock  `json:"init,omitempty"`      // bytes / overlay-over-bytes
+	Hidden   bool         `json:"hidden,omitempty"`    // constants handed in were narrowed from wider ones (hidden capacity with non-zero bytes behind their length)
 	Shared   bool         `json:"shared,omitempty"`    // the initial blocks are windows into one buffer (in trace order)
 	BaseOps  []Op         `json:"base_ops,omitempty"`  // overlay-over-sparse: stores applied to the base first
 	Vals     []*refeval.J `json:"vals"`
